@@ -4,6 +4,7 @@ import (
 	"fmt"
 	"math"
 	"math/big"
+	"math/bits"
 
 	"github.com/tuneinsight/lattigo/v6/core/rlwe"
 	"github.com/tuneinsight/lattigo/v6/multiparty"
@@ -74,8 +75,19 @@ func newCKKSWorld(c *engine.Chooser, name string, k cfg) *ckksWorld {
 	}
 	var ok bool
 	lambda := 128 // security parameter given to GetMinimumLevelForRefresh, as in the repository's tests
-	if k.lambda != 0 {
+	if k.lambda > 0 {
 		lambda = k.lambda
+	}
+	if k.lambda < 0 {
+		// boundary search: the largest security parameter for which some partial product Q_k (k below the top level)
+		// lies in [2^(L+floor(log2 n)), n*2^L), L = lambda + ceil(log2 scale): the masks of n parties do NOT fit level
+		// k (their sum may reach n*2^(L-1) > Q_k/2) although Q_k has more than L + floor(log2 n) bits
+		lambda = boundaryLambda(w.params.Q(), inScale, k.n)
+		if lambda < 0 {
+			c.Skip("no boundary security parameter on this chain")
+			return nil
+		}
+		c.Cover("ckks-boundary", fmt.Sprintf("n%d", k.n))
 	}
 	c.Cover("ckks-lambda", fmt.Sprint(lambda))
 	w.minLevel, w.logBound, ok = mpckks.GetMinimumLevelForRefresh(lambda, inScale, k.n, w.params.Q())
@@ -747,4 +759,104 @@ func coverTight(c *engine.Chooser, w *ckksWorld, n int) {
 	if uni.QAtLevel(w.rp, w.minLevel).Cmp(lim) < 0 {
 		c.Cover("ckks-minlevel", "no-slack")
 	}
+}
+
+// boundaryLambda: see newCKKSWorld. Exact big-integer arithmetic.
+func boundaryLambda(moduli []uint64, scale rlwe.Scale, n int) int {
+	ls := int(math.Ceil(math.Log2(scale.Float64())))
+	fl := bits.Len64(uint64(n)) - 1 // floor(log2 n)
+	for lam := 200; lam >= 4; lam-- {
+		L := uint(lam + ls)
+		lo := new(big.Int).Lsh(big.NewInt(1), L+uint(fl))
+		hi := new(big.Int).Lsh(big.NewInt(int64(n)), L)
+		Q := big.NewInt(1)
+		for k := 0; k+1 < len(moduli); k++ { // k+1 must still be a level of the chain
+			Q.Mul(Q, new(big.Int).SetUint64(moduli[k]))
+			if Q.Cmp(lo) >= 0 && Q.Cmp(hi) < 0 {
+				return lam
+			}
+		}
+	}
+	return -1
+}
+
+// minLevelScenarios: exact oracle on the quantity GetMinimumLevelForRefresh REPORTS. For every security parameter
+// 4..200, 1..8 parties, several scales and modulus chains (primes just below / just above powers of two, between
+// powers of two, the repository's Prec45 test primes):
+//   - logBound = lambda + ceil(log2 scale);
+//   - sound: n * 2^logBound <= Q_minLevel up to a relative 2^-40 for the helper's float64 logarithms (then the centred masks of n parties, whose sum is at most n*2^(logBound-1)
+//     in absolute value, cannot wrap modulo Q_minLevel); judged in big integers;
+//   - not wasteful by more than the rounding the documentation's ceil() implies: Q_(minLevel-1) < 2*n*2^logBound;
+//   - ok = false only when even the whole chain is below 2*n*2^logBound.
+func minLevelScenarios() []engine.Scenario {
+	type mc struct {
+		name string
+		q    func() []uint64
+	}
+	prec45 := []uint64{0x80000000080001, 0x2000000a0001, 0x2000000e0001, 0x2000001d0001, 0x1fffffcf0001, 0x1fffffc20001, 0x200000440001}
+	chains := []mc{
+		{"prec45-test-primes", func() []uint64 { return prec45 }},
+		{"ck40", func() []uint64 { q, _ := mp.ChainCK40.Moduli(); return q }},
+		{"ck25", func() []uint64 { q, _ := mp.ChainCK25.Moduli(); return q }},
+		{"ck90", func() []uint64 { q, _ := mp.ChainCK90.Moduli(); return q }},
+		{"ckfrac", func() []uint64 { q, _ := mp.ChainCKFrac.Moduli(); return q }},
+		{"cktight2", func() []uint64 { q, _ := mp.ChainCKTight2.Moduli(); return q }},
+	}
+	var out []engine.Scenario
+	for _, ch := range chains {
+		ch := ch
+		nm := "minlevel-sweep/" + ch.name
+		out = append(out, engine.Scenario{Name: nm, Bound: -1, Fn: func(c *engine.Chooser) {
+			moduli := ch.q()
+			count := 0
+			for _, logScale := range []int{20, 25, 40, 45, 90} {
+				for sk := 0; sk < 2; sk++ {
+					sv := new(big.Int).Lsh(big.NewInt(1), uint(logScale))
+					if sk == 1 { // not a power of two: 2^k + 2^(k-3) + 1, ceil(log2) = k+1
+						sv.Add(sv, new(big.Int).Lsh(big.NewInt(1), uint(logScale-3)))
+						sv.Add(sv, big.NewInt(1))
+					}
+					scale := rlwe.NewScale(new(big.Float).SetPrec(256).SetInt(sv))
+					ls := logScale + sk
+					for lam := 4; lam <= 200; lam++ {
+						for n := 1; n <= 8; n++ {
+							count++
+							minLevel, logBound, ok := mpckks.GetMinimumLevelForRefresh(lam, scale, n, moduli)
+							need := new(big.Int).Lsh(big.NewInt(int64(n)), uint(lam+ls)) // n * 2^logBound
+							twice := new(big.Int).Lsh(need, 1)
+							Q := func(l int) *big.Int { return ref.Prod(moduli[:l+1]) }
+							desc := fmt.Sprintf("lambda=%d scale~2^%d%s parties=%d chain=%s", lam, logScale, []string{"", "+"}[sk], n, ch.name)
+							if !ok {
+								if Q(len(moduli)-1).Cmp(twice) >= 0 {
+									c.Fail("C16/GetMinimumLevelForRefresh/refuses-a-chain-with-room", "%s: ok=false although the whole chain has more than log2(n)+1 bits above the mask bound", desc)
+									return
+								}
+								continue
+							}
+							if int(logBound) != lam+ls {
+								c.Fail("C16/GetMinimumLevelForRefresh/wrong-logBound", "%s: logBound=%d, want lambda + ceil(log2 scale) = %d", desc, logBound, lam+ls)
+								return
+							}
+							// float64 tolerance: the helper adds float64 logarithms (a prime 2^60 - 2^18 + 1 has log2 = 60 in
+							// float64); a shortfall below 2^-40 of the bound is tolerated (the centred masks then reach Q/2 with
+							// probability < n*2^-40 only if the message is also maximal; no claim is made about that event)
+							tol := new(big.Int).Rsh(need, 40)
+							if minLevel < 0 || minLevel >= len(moduli) || new(big.Int).Add(Q(minLevel), tol).Cmp(need) < 0 {
+								c.Fail("C16/GetMinimumLevelForRefresh/reported-level-too-low", "%s: minLevel=%d but Q_minLevel < parties * 2^logBound (log2 Q = %d bits, need > %d bits): the masks of %d parties can wrap", desc, minLevel, Q(max(minLevel, 0)).BitLen(), need.BitLen()-1, n)
+								return
+							}
+							if minLevel > 0 && Q(minLevel-1).Cmp(twice) >= 0 {
+								c.Fail("C16/GetMinimumLevelForRefresh/reported-level-too-high", "%s: minLevel=%d although level %d already has more than one spare bit above parties * 2^logBound", desc, minLevel, minLevel-1)
+								return
+							}
+						}
+					}
+				}
+			}
+			c.Count(count)
+			c.Cover("minlevel-sweep", "checked")
+			c.Outcome(nm, count)
+		}})
+	}
+	return out
 }
